@@ -60,6 +60,7 @@ type Run struct {
 
 	byteTheory     bool // load the byte-level meaning of the wire tokens (iohelp proofs)
 	nbasis         int
+	Dec            bool // generate the pointwise decode reference and the DEC clauses
 	scratch        string
 	known          []KnownFinding
 	onMissingInput func(o *vc.Obligation) bool // may extend the harness findings; true = look again
@@ -232,6 +233,9 @@ func (r *Run) verify(e *vc.Engine, pkgPaths []string, sel Selection, withLemmas 
 	}
 	if withLemmas {
 		all = append(all, e.LemmaObligations()...)
+	}
+	for _, pp := range pkgPaths {
+		all = append(all, e.RawLemmaObligations(pp)...)
 	}
 	if nfun == 0 || len(all) == 0 {
 		return fmt.Errorf("vacuity guard: no functions under contract / no obligations selected")
